@@ -12,6 +12,7 @@ import (
 func init() {
 	register(&Property{ID: "C29", Run: runC29, Mutants: []Mutant{
 		{Name: "init failure wrapped before it is returned (exit status lost)", File: "internal/wazero/module.go", Old: "\tif p.wazeroInitErr != nil {\n\t\terr = p.wazeroInitErr\n\t\treturn\n\t}", New: "\tif p.wazeroInitErr != nil {\n\t\terr = fmt.Errorf(\"wazero: init failed: %w\", p.wazeroInitErr)\n\t\treturn\n\t}", Expect: "exit-error-identity"},
+		{Name: "compiler engine loses the error for the integer-overflow status", File: "internal/3rdparty/wazero/internal/engine/compiler/engine.go", Old: "\tcase nativeCallStatusIntegerOverflow:\n\t\terr = wasmruntime.ErrRuntimeIntegerOverflow\n", New: "", Expect: "engine-trap-status-exhaustive"},
 		{Name: "CmdRunAction trap path returns nil without exit", File: "internal/app/apprun/apprun.go", Old: "\t\tfmt.Println(err)\n\t\tos.Exit(1)\n\t} else {", New: "\t\tfmt.Println(err)\n\t} else {", Expect: "failure-reaches-failing-exit"},
 		{Name: "BuildApp error exits 0", File: "internal/app/apprun/apprun.go", Old: "fmt.Println(\"appbuild.BuildApp:\", err)\n\t\tos.Exit(1)", New: "fmt.Println(\"appbuild.BuildApp:\", err)\n\t\tos.Exit(0)", Expect: "failure-reaches-failing-exit"},
 		{Name: "exit code replaced by constant 0", File: "internal/app/apprun/apprun.go", Old: "os.Exit(exitCode)", New: "os.Exit(exitCode & 0)", Expect: "exit-code-provenance"},
@@ -85,7 +86,8 @@ func runC29(c *Ctx) {
 	c.Explain = "Decides the error/exit plumbing of `wa run` (clauses: a failing load/compile/instantiate/run reaches a non-zero process status; " +
 		"the action's returned error is turned into a status by main; no failing exit on a path where every tested error was nil; the exit code passed to os.Exit on the ExitError path is the one extracted from the error). " +
 		"Rule: SSA path enumeration from every `err != nil` edge in main.main, apprun.CmdRunAction, apprun.runWasm, wazero.RunWasm, wazero.BuildModule, wazero.(*Module).RunMain to its terminal outcomes. " +
-		"NOT decided: that the embedded engine turns every trap or panic of the guest into an error value (C31 territory), nor the value of the status the guest asked for."
+		"Also: exit-error-identity (the *sys.ExitError reaches AsExitError unwrapped) and engine-trap-status-exhaustive (every status constant of the compiling engine is handled by its call loop or mapped to a non-nil error by causePanic, so no trap ends in panic(nil)). " +
+		"NOT decided: that the embedded engine's generated native code raises the right status for every trapping instruction (C31 territory), nor the value of the status the guest asked for."
 	c.Trusted = []string{"go/packages, go/types, go/ssa (x/tools v0.29.0)"}
 	p := c.Load(LoadOpt{}, ".", "./internal/app/apprun", "./internal/wazero")
 	const r1, r2, r3, r4 = "failure-reaches-failing-exit", "action-error-reaches-status", "success-reaches-zero", "exit-code-provenance"
@@ -95,6 +97,7 @@ func runC29(c *Ctx) {
 	wzPk := p.MustPkg(r1, "internal/wazero")
 	if wzPk != nil {
 		c29ExitErrorIdentity(c, p, wzPk)
+		c29TrapStatus(c, p)
 	}
 	if mainPk == nil || runPk == nil || wzPk == nil {
 		return
